@@ -204,6 +204,7 @@ def _run_tier(mod, prop: str, tier: str, seed: int, t0: float) -> int:
             prop, tier, seed, level, col, getattr(mod, "RULE", ""), list(getattr(mod, "ASSUMPTIONS", [])), wall,
             len(violation_lines), sorted(reported_known), extra,
         )
+    violation_lines = list(dict.fromkeys(violation_lines))  # one line per replay file
     for line in known_lines:
         print(line)
     print(
